@@ -9,6 +9,12 @@ use parry3d_f64::na::{Translation3, UnitQuaternion, Vector6};
 type T3Storage = Vector6<f64>;
 
 pub use self::points_to_mesh::points_to_mesh;
+
+/// Verification hook: direct access to the private point-to-mesh least-squares problem.
+#[cfg(feature = "verif")]
+pub mod verif {
+    pub use super::points_to_mesh::verif::{take_trace, Probe3};
+}
 pub use self::rotations::RotationMatrices;
 
 #[derive(Clone, Copy, Debug)]
